@@ -21,3 +21,4 @@ open TypifyModel.C12
 #print axioms hash_sites_ok
 #print axioms no_preserve_order
 #print axioms render_pure
+#print axioms no_hidden_state
